@@ -126,9 +126,12 @@ package load
 //@ func NewAdaptiveShedder
 //@   prop C09
 //@   opaque newNopShedder, NewAtomicDuration, NewAtomicBool, NewRollingWindow, IgnoreCurrentBucket, True
-//@   loop 1 invariant -1 <= rangeindex
+//@   loop 1 invariant -1 <= rangeindex && rangeindex < len(opts) && (rangeindex == -1 ==> options.window == 5000000000 && options.buckets == 50 && options.cpuThreshold == 900)
 //@   let sh = unbox(result, ptr(adaptiveShedder))
 //@   ensures [disabled-is-a-nop] !ret(True) ==> result == ret(newNopShedder) && calls(NewRollingWindow) == 0
 //@   ensures [two-equal-windows-ignoring-current] ret(True) ==> calls(collection.NewRollingWindow) == 2 && arg(collection.NewRollingWindow, 0, 1) == arg(collection.NewRollingWindow, 0, 2) && arg(collection.NewRollingWindow, 1, 1) == arg(collection.NewRollingWindow, 1, 2) && calls(collection.IgnoreCurrentBucket) == 2 && len(arg(collection.NewRollingWindow, 2, 1)) == 1 && len(arg(collection.NewRollingWindow, 2, 2)) == 1
 //@   ensures [wired] ret(True) ==> typeis(result, ptr(adaptiveShedder)) && sh.passCounter == ret(collection.NewRollingWindow, 0, 1) && sh.rtCounter == ret(collection.NewRollingWindow, 0, 2) && sh.flying == 0 && sh.cpuThreshold == local(options).cpuThreshold
+// the bucket duration and the buckets-per-second factor follow the CONFIGURED window and bucket count (options
+// are applied before they are derived)
+//@   ensures [derived-from-the-configured-options] ret(True) && local(options).buckets > 0 && local(options).window >= local(options).buckets ==> arg(collection.NewRollingWindow, 0, 1) == local(options).buckets && arg(collection.NewRollingWindow, 1, 1) == local(options).window / local(options).buckets && sh.windows == 1000000000 / (local(options).window / local(options).buckets)
 //@   ensures [defaults] ret(True) && len(opts) == 0 ==> arg(collection.NewRollingWindow, 0, 1) == 50 && arg(collection.NewRollingWindow, 1, 1) == 100000000 && sh.windows == 10 && sh.cpuThreshold == 900
